@@ -137,6 +137,13 @@ fn c03_private_content_application_bounded_10() {
     application_body::<10>();
 }
 
+#[kani::proof]
+#[kani::unwind(8)]
+#[kani::stub(zeroize::optimization_barrier, noop_barrier)]
+fn c03_tmp_application_bounded_5() {
+    application_body::<5>();
+}
+
 /// Focused restatement of the padding rule alone: take ANY accepted buffer and flip ANY
 /// padding position to ANY non-zero value: the result is rejected.
 #[kani::proof]
